@@ -1505,10 +1505,6 @@ def _resolve_static_positions_iterative(
                 # Current bounds
                 b0, b1 = slice_dict[obj_name][axis]
 
-                # Already fully resolved
-                if b0 is not None and b1 is not None:
-                    continue
-
                 # Need object size to compute centered bounds
                 size = shape_dict[obj_name][axis]
 
